@@ -1,0 +1,40 @@
+//go:build verif
+
+// Contracts for package pluginconfig (plugins inside configs), checked by /verif/govc. Comment-only: no code.
+package pluginconfig
+
+// The function that fills a plugin's configuration: the user's settings are decoded into it strictly AND validated;
+// a failure of either reaches the caller.
+//@ func parseConf#lit0
+//@ props C17 C18
+//@ may_panic true
+//@ at call config.DecodeAndValidate assert [user-settings-decoded-and-validated-into-the-new-configuration] arg(conf) == box(confData) && arg(result) == conf
+//@ ensures [decode-or-validation-failure-is-returned] iff(result != nil, result_of(config.DecodeAndValidate, 0) != nil)
+
+// A nested plugin is {type: <name>, ...settings}: exactly one "type" key with a string value, the rest are the settings.
+//@ func parseConf
+//@ props C17 C18
+//@ loop 0 invariant imp(err == nil, true)
+//@ ensures [map-expected] imp(result_of(toStringKeyMap, 1) != nil, err == result_of(toStringKeyMap, 1))
+//@ ensures [a-filler-is-returned-on-success] imp(err == nil, fillConf != nil)
+
+// A value whose target type has registered plugins is built by the registry from the parsed name and settings.
+//@ func Hook
+//@ props C17 C18
+//@ may_panic true
+//@ at call plugin.New assert [name-and-settings-from-the-config] arg(pluginType) == t && arg(name) == result_of(parseConf, 0)
+//@ ensures [config-errors-are-returned] imp(calls(parseConf) == 1 && result_of(parseConf, 2) != nil, err == result_of(parseConf, 2))
+//@ ensures [creation-outcome-is-returned] imp(calls(plugin.New) == 1, p == result_of(plugin.New, 0) && err == result_of(plugin.New, 1))
+
+//@ func FactoryHook
+//@ props C17 C18
+//@ may_panic true
+//@ at call plugin.NewFactory assert [name-and-settings-from-the-config] arg(factoryType) == t && arg(name) == result_of(parseConf, 0)
+//@ ensures [config-errors-are-returned] imp(calls(parseConf) == 1 && result_of(parseConf, 2) != nil, err == result_of(parseConf, 2))
+//@ ensures [creation-outcome-is-returned] imp(calls(plugin.NewFactory) == 1, p == result_of(plugin.NewFactory, 0) && err == result_of(plugin.NewFactory, 1))
+
+// Only maps with string keys are configurations.
+//@ func toStringKeyMap
+//@ props C17 C13
+//@ loop 0 invariant out != nil
+//@ ensures [non-map-is-an-error] imp(!typeis(data, map[string]interface{}) && !typeis(data, map[interface{}]interface{}), err != nil)
